@@ -224,7 +224,7 @@ class Show:
 
         elif isinstance(data, list):
             for i in data:
-                self._check_token(path, i, 'key')
+                # an item of a list is a value (it is replaced by its index in _replace_token_values), not a key
                 if list_index is None:
                     list_index = 0
                 else:
